@@ -26,7 +26,7 @@ class Case:
 
 class Contract:
     def __init__(self, qualname, *, cases, spec=None, requires=None, raises=(), props=(), layer=1,
-                 post=None, inline=(), doc="", invoke=None):
+                 post=None, inline=(), doc="", invoke=None, axiom_opts=None):
         self.qualname = qualname
         self.cases = cases            # list[Case]; Case.build(engine) -> (args tuple, kwargs dict)
         self.spec = spec              # spec(*args, **kwargs) -> expected value (also used by the stub)
@@ -38,6 +38,7 @@ class Contract:
         self.inline = set(inline)     # qualnames NOT to stub while verifying this contract
         self.doc = doc
         self.invoke = invoke          # how the harness reaches the function (e.g. through a carrier subclass)
+        self.axiom_opts = axiom_opts or {}   # extra axiom schemes to instantiate (exp_pairs / trig_pairs)
         self.owner, self.attr, self.orig = resolve(qualname)
         self.sig = inspect.signature(self.orig)
         self.is_init = self.attr == "__init__"
@@ -261,6 +262,13 @@ def compare(e: Engine, name, got, exp, *, enumerate_small=True):
     if isinstance(exp, Opaque):
         e.prove(f"{name}: is the object the contract names", exp.same(got), kind="ensures")
         return
+    if isinstance(exp, dict):
+        ok = isinstance(got, dict) and sorted(got) == sorted(exp)
+        e.prove(f"{name}: mapping with keys {sorted(exp)}", ok, kind="ensures")
+        if ok:
+            for k in sorted(exp):
+                compare(e, f"{name}[{k!r}]", got[k], exp[k])
+        return
     if isinstance(exp, slice):
         ok = isinstance(got, slice)
         e.prove(f"{name}: is a slice", ok, kind="ensures")
@@ -367,6 +375,7 @@ def verify_contract(c: Contract, *, only_case=None):
         if only_case is not None and case.label != only_case:
             continue
         eng = Engine(f"{c.qualname}[{case.label}]")
+        eng.axiom_opts = dict(c.axiom_opts)
 
         def harness(e, case=case):
             built = case.build(e)
@@ -423,6 +432,14 @@ def verify_contract(c: Contract, *, only_case=None):
                 if c.spec is not None:
                     with engine.no_div_guard():
                         exp = c.spec(*bargs, **bkw)
+                    if "apply" in ctx:
+                        # higher-order result: the returned function is applied to symbolic arguments (under the
+                        # shim, with the loop rules of the case) and compared with the spec function's value
+                        e.prove("result is callable", callable(res), kind="ensures")
+                        with shimmed(), stubbed(except_for={c.qualname} | c.inline), _ops.scan_rules(*ctx.get("apply_scan_rules", [])):
+                            res = res(*ctx["apply"])
+                        with engine.no_div_guard():
+                            exp = exp(*ctx["apply"])
                     compare(e, "result", res, exp)
                 if c.post is not None:
                     c.post(e, res, *bargs, **bkw)
